@@ -194,6 +194,13 @@ def write_evidence(pid, tier, seed, level, coverage, assumptions, wall, violatio
 def replay_once(exe, prop, path, extra_opts=(), timeout=600):
     env = dict(os.environ)
     env.update(ASAN_ENV)
+    # a tape names the (sub-)property that wrote it, e.g. C10exit for C10
+    try:
+        m = re.match(r'# property (\S+)', open(path, errors='replace').readline())
+        if m and m.group(1).startswith(prop):
+            prop = m.group(1)
+    except Exception:
+        pass
     cmd = [exe, '--prop', prop, '--replay', path]
     for o in extra_opts:
         cmd += ['--opt', o]
@@ -835,12 +842,24 @@ def run_c10(pid, cfg, tier, seed, t0):
             log('--- start-up probe of the real executable (%s) ---\n%s' % (sig, out))
             print('VIOLATION property=%s replay=%s' % (pid, os.path.relpath(dest, ROOT)))
             return 1
-    rc = run_rc_property(pid, cfg, tier, seed, t0)
     ev_path = os.path.join(ROOT, 'evidence', pid + '.json')
+    # exit half: sessions that end (quit / end of input) while the search thread is parked at a generated schedule point
+    xcfg = dict(cfg)
+    xcfg['prop'] = 'C10exit'
+    xcfg['rule'] = cfg['exit_rule']
+    xcfg[tier] = dict(cfg[tier]['exit'])
+    rc = run_rc_property(pid, xcfg, tier, seed, t0)
+    if rc != 0 or not os.path.exists(ev_path):
+        return rc
+    exit_cov = json.load(open(ev_path))['coverage']
+    exit_half = dict(prop='C10exit', rule=cfg['exit_rule'], evaluations=exit_cov.get('evaluations'), distinct_nontrivial=exit_cov.get('distinct_nontrivial'),
+                     generated_cases=exit_cov.get('generated_cases'), classes=exit_cov.get('classes'), samples=exit_cov.get('samples'))
+    rc = run_rc_property(pid, cfg, tier, seed, t0)
     if rc != 0 or not os.path.exists(ev_path):
         return rc
     try:
         ev0 = json.load(open(ev_path))
+        ev0['coverage']['exit_half'] = exit_half
         ev0['coverage']['startup_probe'] = dict(sessions=len(STARTUP_SESSIONS), rule='engine/main.cpp linked with the ASan/UBSan engine objects, scripted sessions without searches over stdin; any sanitizer report or non-zero exit is a violation')
         json.dump(ev0, open(ev_path, 'w'), indent=1)
     except Exception:
